@@ -16,6 +16,7 @@ def parseOp (s : String) : Option Op :=
   | ["refresh"] => some .refresh
   | ["own", ps] => do pure (.own (← parseInts ps))
   | ["revoke"] => some .revoke
+  | ["revokex"] => some .revoke          -- a revocation during which the main client's Unassign fails: the same to the recovery consumer
   | ["req", p, f, t] => do pure (.req (← p.toInt?) (← f.toInt?) (← t.toInt?))
   | ["recv", p, l] => do pure (.recv (← p.toInt?) (← parseSnap l))
   | ["crash"] => some .crash
